@@ -52,6 +52,11 @@ CHECKS = {
   "Trusted: the 25-line reference (check values and the spec's three hash-tag examples are re-verified on every run).", "DESIGN.md §5/C15"),
 }
 
+CHECKS["C20"] = ("fault_enumeration",
+  "fault-sequence monitor: scripted fake shard nodes on loopback ports (per-round behaviour), real GetSlotState, result compared with a reference selection; probe counts observed at the nodes",
+  "160/1600 topologies x failure sequences: 1-5 nodes in any order, one or two masters appearing from probe round 1..7 or never, every other round drawn from {replica, connection refused, accept-and-drop, -ERR, -LOADING, INFO without a role line (incl. decoy 'role:master' inside another line), non-RESP garbage, integer reply}. The chosen Source must report master in the round it was chosen, Slaves must be every other known node exactly once, an error must be returned iff no node reported master within 1+6 rounds, no node is probed more than 7 times, descriptor fields are preserved. No-master cases wait out the real 21 s back-off (cases run concurrently).",
+  "Trusted: the fake nodes and the round = connection-count assumption. Silent nodes (accept, never answer) are not generated (no read timeout; not in the statement's fault list).", "DESIGN.md §5/C20")
+
 PENDING_REASON = "monitor not built yet in this revision of /verif (planned in DESIGN.md §5); no claim is made"
 
 def main():
